@@ -15,7 +15,7 @@ git -C /repo worktree add -q --detach "$WT" HEAD || exit 2
 cleanup() { git -C /repo worktree remove --force "$WT" 2>/dev/null; rm -rf "$WT"; }
 trap cleanup EXIT
 cp "$SRC/patch.diff" "$OUT/patch.diff"
-demo=$(ls "$SRC"/*_test.go "$SRC"/*.go 2>/dev/null | head -1)
+demo="$SRC/demo_test.go"; [ -f "$demo" ] || demo=$(ls "$SRC"/*_test.go "$SRC"/*.go 2>/dev/null | head -1)
 cp "$demo" "$OUT/" 2>/dev/null
 cp "$SRC/notes.md" "$OUT/notes.md" 2>/dev/null
 cd "$WT"
